@@ -82,6 +82,11 @@ DESC = {
  "C18c": "`from_simple` memo keyed on the parent storage class (same name, other storage class, inside a persistence context)",
  "C19a": "chain children set only for a newly created chain (second import after a prepend)",
  "C19b": "`continue` → `break` in populated-by record extraction (dataset over visit + detector)",
+ "C04c": "`if data_ids is not None` → `if data_ids` in the calibration overlap query (decertify with an empty data-ID selection)",
+ "C06c": "`\"region\" in updated` → `updated.get(\"region\") is not None` in sync (region filled in later by sync(update=True))",
+ "C12c": "strict `<` / `>` of groups compare `required` with `names` (equal groups with implied dimensions)",
+ "C15c": "second distribution branch of the legacy normal form uses `self._lhs` / `self._rhs` (NOT over a nested group)",
+ "C19c": "`break` instead of `continue` in `_computeDatasetAssociations` (CALIBRATION exported, no TAGGED, non-calibration type first)",
  "C20a": "dimension-group re-read moved out of the locked block (two clients, new dimension group)",
  "C20b": "`ensureTableExists` no longer absorbs SQLite's 'table already exists' (two clients, new dynamic table)",
 }
